@@ -1323,3 +1323,35 @@ def check_cis_energy(ctx, rid):
     ctx.check(ok, rid, rc, f, "calc_cis_energy", "RPA", "RPA excitation energy = X . (A X + B Y) + Y . (B X + A Y) (exact rationals)",
               "calc_cis_energy (RPA) is not (X Y) [[A B],[B A]] (X Y)^T: with reverse-mode forces on an RPA state the differentiated energy is not the reported excitation energy "
               "(Etot and forces are inconsistent with cis_energies and with the analytical gradient)")
+
+
+def check_phase_alignment(ctx, rid):
+    """Energy._phase_align_cis interpreted with exact rationals: the returned amplitudes are the new ones with every root multiplied by ONE sign s(molecule, root) = sign of its
+    overlap with the reference -- the same sign for the X and the Y block of an RPA vector (a sign applied to X only leaves [X; -Y], which is not an eigenvector), roots beyond the
+    reference left untouched."""
+    import random
+    import numpy as np
+    import sympy as sp
+    from .npsym import NpSym
+    repo = ctx.repo
+    bs = repo.mod("seqm/basics.py")
+    f = bs.func("Energy._phase_align_cis")
+    rng = random.Random(71)
+    rnd = lambda *shape: np.array([sp.Rational(rng.randint(-9, 9) or 2, rng.randint(1, 5)) for _ in range(int(np.prod(shape)))], dtype=object).reshape(shape)
+    nmol, nroots, nov = 2, 3, 4
+    for rpa in (False, True):
+        for n_ref in (3, 2):
+            new = rnd(2, nmol, nroots, nov) if rpa else rnd(nmol, nroots, nov)
+            ref = rnd(2, nmol, n_ref, nov) if rpa else rnd(nmol, n_ref, nov)
+            X = new[0] if rpa else new
+            Rf = ref[0] if rpa else ref
+            s = np.array([[(1 if sum(Rf[b, r, k] * X[b, r, k] for k in range(nov)) >= 0 else -1) if r < n_ref else 1 for r in range(nroots)] for b in range(nmol)], dtype=object)
+            want = new * (s[None, :, :, None] if rpa else s[:, :, None])
+            res = NpSym(repo).call_function(bs, f, [new.copy(), ref.copy()], {"rpa": rpa})
+            ok = getattr(res, "shape", None) == new.shape and all(sp.sympify(a) == sp.sympify(b) for a, b in zip(res.reshape(-1), want.reshape(-1)))
+            flips = int(sum(1 for v in s.reshape(-1) if v == -1))
+            ctx.check(ok, rid, bs, f, "Energy._phase_align_cis", f"{'RPA' if rpa else 'CIS'}, {n_ref} reference roots",
+                      f"{'RPA' if rpa else 'CIS'} amplitudes aligned with {n_ref} reference roots: every root is multiplied by one sign ({flips} flips in the test data)"
+                      f"{', X and Y blocks alike' if rpa else ''}; extra roots untouched",
+                      f"phase alignment ({'RPA' if rpa else 'CIS'}, {n_ref} reference roots) does not return s(molecule, root) * amplitudes"
+                      f"{' for both the X and the Y block: a sign applied to one block only turns [X; Y] into [X; -Y], which is no longer an eigenvector of the RPA problem' if rpa else ''}")
